@@ -116,7 +116,9 @@ impl Menu {
 
         // deliveries first (the default environment)
         for (link, nreq, nresp, dead) in c.links() {
-            if nreq > 0 {
+            // a node blocked in its election / join call does not read its inbox yet
+            let target_busy = matches!(c.slots.get(&link.to), Some(Slot::Busy) | Some(Slot::Absent));
+            if nreq > 0 && !target_busy {
                 let maxk = (self.deliver_batch_max as usize).min(nreq);
                 for k in 1..=maxk {
                     push(&mut out, Event::Deliver(link, k as u8), 0);
@@ -239,6 +241,15 @@ impl Menu {
                     if c.last_views.get(id).map(|v| v.applied >= 2).unwrap_or(false) {
                         push(&mut out, Event::Snapshot(*id), 0);
                     }
+                }
+            }
+        }
+
+        // joins of nodes that are not part of the cluster yet
+        if self.joins && any_leader && c.joining.is_empty() {
+            for (id, s) in &c.slots {
+                if matches!(s, Slot::Absent) {
+                    push(&mut out, Event::Join(*id), 0);
                 }
             }
         }
